@@ -231,7 +231,7 @@ func (w *world) serve(host string, conn *vnet.VConn) {
 					w.closes++
 					w.closedAt = w.s.Now()
 					if w.sc.refuseDial {
-						vnet.Current.RefuseDials = 1 + w.c.Choose(2)
+						vnet.Current.RefuseDials = []int{1, 2, 5, 8}[w.c.Choose(4)] // the outage lasts for that many re-dial attempts (one per second)
 					}
 					conn.Close()
 					return
